@@ -174,7 +174,7 @@ func lemmaSum20(s string) {
 //@   requires upc != nil && upc.PacketConn != nil
 //@   modifies b
 //@   after `n, _, err := upc.PacketConn.ReadFrom(pkt)` assert[buffer] len(pkt) == 68 + len(b)
-//@   after `srcAddr := &net.UDPAddr{` assert[acc-len] n >= 20 && n == len(pkt)
+//@   after `srcAddr := &net.UDPAddr{` assert[acc-len] n >= 20 && n <= len(pkt)
 //@   after `srcAddr := &net.UDPAddr{` assert[acc-version] int(pkt[0])/16 == 4
 //@   after `srcAddr := &net.UDPAddr{` assert[acc-hlen] int(pkt[0])%16*4 >= 20 && int(pkt[0])%16*4 <= specWord(string(pkt), 2) && specWord(string(pkt), 2) <= n
 //@   after `srcAddr := &net.UDPAddr{` assert[acc-proto] int(pkt[9]) == 17
